@@ -887,6 +887,10 @@ class Evaluator(Interp):
             return self.call_lambda(fn, args, fr)
         if isinstance(fn, _SpecFunc):
             return self.call_spec(fn, args, kwargs, fr)
+        if isinstance(fn, SV) and isinstance(fn.ty, (TObj, TRec)):
+            # calling an instance: its class's __call__
+            m = self.getattr(fn, "__call__", fr)
+            return self.call_value(m, args, kwargs, fr, node)
         raise Unsupported(f"call of {fn}")
 
     def call_lambda(self, lam: VLambda, args, fr):
